@@ -86,13 +86,13 @@ class Pair(FactAnalysis):
         clean_p, clean_m = ('CLEAN', POT) in st.facts, ('CLEAN', MARG) in st.facts
         if clean_p and clean_m:
             return True, 'neither potentials nor marginals written since setup'
-        if clean_p != clean_m:
-            return False, 'only %s was stored since setup; the other half of the pair is stale' \
-                % ('marginals' if clean_p else 'potentials')
         if ('SYNC', POT, MARG) in st.facts:
             return True, 'marginals = belief_propagation(potentials) of the stored parameter vector'
         if ('MLE', POT, MARG) in st.facts:
             return True, 'potentials = mle(marginals) of the stored marginals'
+        if clean_p != clean_m:
+            return False, 'only %s was stored since setup; the other half of the pair is stale' \
+                % ('marginals' if clean_p else 'potentials')
         return False, 'stored potentials and marginals are not shown to be a matched pair on every path ' \
                       '(neither marginals = BP(potentials) nor potentials = mle(marginals) of the same object)'
 
